@@ -580,4 +580,109 @@ theorem parseSource_print (sub : Option (P SelectStmt)) (s : PState) (pre : Str)
         (hdot _ _) ⟨Or.inl (hdot _ _), Or.inl hL, trivial⟩ (by simp) hk (by simpa [List.append_assoc] using hs)
       simpa [measurementOfSegs] using this
 
+/-! ## `parseTarget` on a written name (`INTO db.rp.m`) -/
+
+/-- `Measurement.String()` of a named measurement as a spelling of one to three segments. -/
+theorem measurement_print_spelled (m : Measurement) (k : Str) (hname : m.name ≠ []) (hsys : m.systemIterator = [])
+    (hdb : Expressible m.database) (hrp : Expressible m.retentionPolicy) (hnm : Expressible m.name)
+    (hlast : IdentEnd m.name k) :
+    ∃ a w segs ws, m.print = w ++ dotted ws ∧ (∀ x ∈ a :: segs, Expressible x) ∧ SegSpelled a w (dotted ws ++ k) ∧
+      DottedOK segs ws k ∧ segs.length ≤ 2 ∧
+      measurementOfSegs (a :: segs) =
+        { database := m.database, retentionPolicy := m.retentionPolicy, name := m.name } := by
+  rw [measurement_print_named m hname hsys]
+  have hL : SegSpelled m.name (quoteIdent [m.name]) (dotted [] ++ k) := segSpelled_quoteIdent _ _ hlast
+  have hdot : ∀ (x : Str) (rest : Str), SegSpelled x (quoteIdent [x]) ('.' :: rest) := fun x rest =>
+    segSpelled_quoteIdent x _ (IdentEnd.of_wordEnd (WordEnd.dot _))
+  by_cases h1 : m.database = []
+  · by_cases h2 : m.retentionPolicy = []
+    · refine ⟨m.name, quoteIdent [m.name], [], [], by simp [h1, h2, dotted], ?_, hL, trivial, by simp, ?_⟩
+      · intro x hx; simp at hx; rw [hx]; exact hnm
+      · simp [measurementOfSegs, h1, h2]
+    · refine ⟨m.retentionPolicy, quoteIdent [m.retentionPolicy], [m.name], [quoteIdent [m.name]],
+        by simp [h1, h2], ?_, hdot _ _, ⟨Or.inl hL, trivial⟩, by simp, ?_⟩
+      · intro x hx; simp at hx; rcases hx with rfl | rfl <;> assumption
+      · simp [measurementOfSegs, h1]
+  · by_cases h2 : m.retentionPolicy = []
+    · refine ⟨m.database, quoteIdent [m.database], [[], m.name], [[], quoteIdent [m.name]],
+        by simp [h1, h2], ?_, hdot _ _, ⟨Or.inr ⟨rfl, rfl, by simp⟩, Or.inl hL, trivial⟩, by simp, ?_⟩
+      · intro x hx; simp at hx; rcases hx with rfl | rfl | rfl
+        · assumption
+        · intro c hc; cases hc
+        · assumption
+      · simp [measurementOfSegs, h2]
+    · refine ⟨m.database, quoteIdent [m.database], [m.retentionPolicy, m.name],
+        [quoteIdent [m.retentionPolicy], quoteIdent [m.name]],
+        by simp [h1, h2], ?_, hdot _ _, ⟨Or.inl (hdot _ _), Or.inl hL, trivial⟩, by simp, ?_⟩
+      · intro x hx; simp at hx; rcases hx with rfl | rfl | rfl <;> assumption
+      · simp [measurementOfSegs]
+
+theorem tx_into : tx "INTO " = Token.INTO.str ++ [' '] := by decide +kernel
+
+/-- **`parseTarget` on `Target.String()`** of a named measurement, followed by a blank and a rune `c`
+that is neither white space, NUL nor `:` (in a statement: ` FROM …`). `parseTarget` looks at the *rune
+reader* after `parseSegmentedIdents` (for `:MEASUREMENT`), i.e. at the rune behind the pushed-back blank. -/
+theorem parseTarget_print (required : Bool) (s : PState) (m : Measurement) (c : Char) (t : Str)
+    (hname : m.name ≠ []) (hsys : m.systemIterator = [])
+    (hdb : Expressible m.database) (hrp : Expressible m.retentionPolicy) (hnm : Expressible m.name)
+    (hc : isWhitespace c = false) (hce : c ≠ eofRune) (hcc : c ≠ ':')
+    (hs : s.Around (' ' :: (printTarget m ++ ' ' :: c :: t))) :
+    ∃ s', (parseTarget required).run s =
+        .ok (some { database := m.database, retentionPolicy := m.retentionPolicy, name := m.name, isTarget := true },
+          s') ∧ s'.AfterLook (' ' :: c :: t) := by
+  obtain ⟨a, w, segs, ws, hp, hex, h0, hok, hlen, hm⟩ :=
+    measurement_print_spelled m (' ' :: c :: t) hname hsys hdb hrp hnm (IdentEnd.of_wordEnd (WordEnd.blank _))
+  have hs1 : s.Around ([' '] ++ (Token.INTO.str ++ ([' '] ++ (w ++ (dotted ws ++ ' ' :: c :: t))))) := by
+    have : printTarget m = Token.INTO.str ++ [' '] ++ (w ++ dotted ws) := by
+      unfold printTarget; rw [tx_into, hp]; simp [hname]
+    rw [this] at hs
+    simpa [List.append_assoc] using hs
+  obtain ⟨lx, s1, hsc, ht, _, hb1⟩ := scanIW_piece s [' '] Token.INTO.str _ .INTO [] Gap.blank hs1
+    (scansAs_kw .INTO _ (by decide +kernel) (WordEnd.blank _))
+  obtain ⟨s', hseg, hal⟩ := parseSegmentedIdents_spelled s1 [' '] a w segs ws (' ' :: c :: t) Gap.blank hex h0 hok
+    hlen (SegEnd.ws ' ' _ (by decide)) hb1.around
+  -- the rune behind the pushed-back blank
+  have hpk : s'.r.peek = c := by
+    obtain ⟨s0, lx0, s2, hb0, hp0, rfl⟩ := hal
+    have hch : s0.r.chars = [' '] ++ (c :: t) := Before_cons_chars hb0 (by decide)
+    have hnw : NotWsHead (c :: t) := by
+      intro x y hxy; simp only [List.cons.injEq] at hxy; rw [← hxy.1]; exact hc
+    obtain ⟨w1, w2⟩ := scan_wsRun s0.r [' '] (c :: t) hch ⟨by simp, by simp; decide⟩ hnw
+    rw [pscan_fresh s0 hb0.1 (by rw [w1]; decide)] at hp0
+    injection hp0 with hp0
+    injection hp0 with _ hs2
+    subst hs2
+    have : dropEof (c :: t) = c :: t := by simp [dropEof, hce]
+    rw [this] at w2
+    exact (Cursor.chars_cons w2).2.2
+  refine ⟨s', ?_, hal⟩
+  unfold parseTarget
+  rw [P.run_bind _ _ _ _ _ hsc]
+  simp only [ht, ne_eq, not_true_eq_false, if_false]
+  rw [P.run_bind _ _ _ _ _ hseg]
+  have hpeek := peekRune_run s'
+  rw [hpk, if_neg hce] at hpeek
+  match segs, hlen, hm with
+  | [], _, hm =>
+    rw [if_pos (by simp), P.run_bind _ _ _ _ _ hpeek]
+    simp only [hcc, if_false]
+    simp only [measurementOfSegs, Measurement.mk.injEq] at hm
+    obtain ⟨e1, e2, e3, _⟩ := hm
+    rw [← e1, ← e2, ← e3]
+    rfl
+  | [b], _, hm =>
+    rw [if_pos (by simp), P.run_bind _ _ _ _ _ hpeek]
+    simp only [hcc, if_false]
+    simp only [measurementOfSegs, Measurement.mk.injEq] at hm
+    obtain ⟨e1, e2, e3, _⟩ := hm
+    rw [← e1, ← e2, ← e3]
+    rfl
+  | [b, d], _, hm =>
+    rw [if_neg (by simp)]
+    simp only [measurementOfSegs, Measurement.mk.injEq] at hm
+    obtain ⟨e1, e2, e3, _⟩ := hm
+    rw [← e1, ← e2, ← e3]
+    rfl
+  | _ :: _ :: _ :: _, h, _ => simp at h
+
 end InfluxQL
